@@ -211,7 +211,7 @@ def gen_table(rng, i):
                 c['titles_as'] = how
     return {'cols': cols, 'nrows': n, 'delimiter': [',', '|', '\t', ';'][i % 4], 'encoding': ['utf-8', 'latin-1', 'utf-16'][(i // 4) % 3],
             'header': (i // 2) % 2 == 0 or rng.random() < 0.5, 'bool': spell,
-            'header_decl': ['both', 'header', 'count'][(i // 5) % 3],
+            'header_decl': ['both', 'header', 'count', 'count-beside-header-true'][(i // 5) % 4],
             'url': rng.choice(['same', 'same', 'same', 'absent', 'other-existing', 'other-missing'])}
 
 
@@ -271,8 +271,10 @@ def run_table_case(ctx, case):
         how = t.get('header_decl', 'both')
         if how in ('both', 'header'):
             dialect['header'] = False
-        if how in ('both', 'count'):
+        if how in ('both', 'count', 'count-beside-header-true'):
             dialect['headerRowCount'] = 0
+        if how == 'count-beside-header-true':
+            dialect['header'] = True         # CSVW: "header" is ignored when "headerRowCount" is given
     mdpath = write_md(d, 'tab', columns, dialect, url=t.get('url', 'same'))
     nonnull = any(v is not None for c in t['cols'] for v in c['values'])
     cls = [('part=table',), ('delimiter=' + ('tab' if t['delimiter'] == '\t' else t['delimiter']),), ('encoding=' + enc,),
